@@ -818,6 +818,10 @@ def _locktime(c, prog):
                    {((L + "is_block_height(arg1)", "=1"),): H, ((L + "is_block_height(arg1)", "otherwise"),): T},
                    {((L + "is_block_time(arg1)", "=0"),): H, ((L + "is_block_time(arg1)", "otherwise"),): T}))
     c.inst("R7.locktime", "LockTime::from_consensus: height below the threshold, time from it on", good, "rows %s" % rr, G.f.where(), G.f.path)
+    for ty, var in (("Height", "Blocks"), ("Time", "Seconds")):
+        ff = prog.fn("<locktime::LockTime as std::convert::From<locktime::%s>>::from" % ty)
+        t = show(Prov(ff.body).local(0), -9)
+        c.inst("R7.locktime", "LockTime::from(%s) = %s(h)" % (ty, var), t == "locktime::LockTime::%s{arg1}" % var, "returns %s" % t, ff.where(), ff.path)
     fe = prog.fn("<locktime::LockTime as encode::Encodable>::consensus_encode")
     fd = prog.fn("<locktime::LockTime as encode::Decodable>::consensus_decode")
     re_, rd = show(Prov(fe.body).local(0), -30), show(Prov(fd.body).local(0), -30)
@@ -826,6 +830,45 @@ def _locktime(c, prog):
            and rd in ("std::result::Result::map(<u32 as encode::Decodable>::consensus_decode(arg1), fnitem('locktime::LockTime::from_consensus',))",),
            "writer %s; reader %s" % (re_, rd), fe.where(), fe.path)
     c.floor("R7.locktime", 7)
+
+
+def _defaults(c, prog):
+    """R7.null-values: the "null"/default values that canonicity guards, coinbase tests, blanking in the legacy sighash and the
+    PSET converters compare against or start from: confidential fields default to Null, witnesses to empty, issuance to the
+    all-null issuance, the outpoint to (zero txid, 0xffffffff), the sequence to 0xffffffff."""
+    D = " as std::default::Default>::default"
+
+    def term(fnp):
+        return re.sub(r"@[\w]*#\d+", "", show(Prov(prog.fn(fnp).body).local(0), -30))
+    table = {
+        "<confidential::Value" + D: ("confidential::Value::Null{}",),
+        "<confidential::Asset" + D: ("confidential::Asset::Null{}",),
+        "<confidential::Nonce" + D: ("confidential::Nonce::Null{}",),
+        "<dynafed::Params" + D: ("dynafed::Params::Null{}",),
+        "<transaction::TxOutWitness" + D: ("transaction::TxOutWitness::empty()", "transaction::TxOutWitness::TxOutWitness{std::option::Option::None{}, std::option::Option::None{}}"),
+        "transaction::TxOutWitness::empty": ("transaction::TxOutWitness::TxOutWitness{std::option::Option::None{}, std::option::Option::None{}}",),
+        "<transaction::TxInWitness" + D: ("transaction::TxInWitness::empty()",),
+        "transaction::TxInWitness::empty": ("transaction::TxInWitness::TxInWitness{std::option::Option::None{}, std::option::Option::None{}, std::vec::Vec::new(), std::vec::Vec::new()}",),
+        "<transaction::AssetIssuance" + D: ("transaction::AssetIssuance::null()",),
+        "transaction::AssetIssuance::null": ("transaction::AssetIssuance::AssetIssuance{secp256k1_zkp::ZERO_TWEAK, repeat(('const', 'u8', 0), '32'), confidential::Value::Null{}, confidential::Value::Null{}}",),
+        "<transaction::OutPoint" + D: ("transaction::OutPoint::null()",),
+        "transaction::OutPoint::null": ("transaction::OutPoint::OutPoint{hash_types::Txid::COINBASE_PREVOUT, 4294967295}",),
+        "<transaction::Sequence" + D: ("transaction::Sequence::MAX", "transaction::Sequence::Sequence{4294967295}"),
+        "<transaction::TxIn" + D: ("transaction::TxIn::TxIn{<transaction::OutPoint as std::default::Default>::default(), 0, script::Script::new(), transaction::Sequence::MAX, "
+                                   "<transaction::AssetIssuance as std::default::Default>::default(), <transaction::TxInWitness as std::default::Default>::default()}",),
+        "<pset::map::global::TxData" + D: ("pset::map::global::TxData::TxData{2, std::option::Option::None{}, 0, 0, std::option::Option::None{}}",),
+        "<block::ExtData" + D: ("block::ExtData::Dynafed{dynafed::Params::Null{}, dynafed::Params::Null{}, std::vec::Vec::new()}",),
+    }
+    for fnp, wants in table.items():
+        t = term(fnp)
+        c.inst("R7.null-values", fnp.replace(D, "::default").lstrip("<"), t in wants, "returns %s" % t[:200], prog.fn(fnp).where(), fnp)
+    v = (prog.consts.get("transaction::Sequence::MAX") or {}).get("val") or ""
+    c.inst("R7.null-values", "Sequence::MAX = 0xffffffff", v in ("transaction::Sequence(u32::MAX)", "transaction::Sequence(4294967295_u32)"), "evaluated %s" % v, None, "transaction::Sequence::MAX")
+    v = (prog.consts.get("hash_types::Txid::COINBASE_PREVOUT") or {}).get("val") or ""
+    body = re.search(r'\*b"((?:\\x[0-9a-f]{2})*)"', v)
+    c.inst("R7.null-values", "Txid::COINBASE_PREVOUT = 32 zero bytes", body is not None and body.group(1) == "\\x00" * 32,
+           "evaluated %s" % v[:80], None, "hash_types::Txid::COINBASE_PREVOUT")
+    c.floor("R7.null-values", 16)
 
 
 def run(c, prog, ctx):
@@ -853,6 +896,7 @@ def run(c, prog, ctx):
     _primitives(c, prog)
     _newtype_views(c, prog)
     _locktime(c, prog)
+    _defaults(c, prog)
     _length_accounting(c, prog, encs)
     # guard predicates the codec branches on (witness flag, issuance flag, null-ness)
     run_predicates(c, prog, "R3.guard-predicates")
